@@ -136,6 +136,10 @@ def list_subqueries(segment: BaseSegment) -> list[SubQueryTuple]:
     if segment.type == "select_clause":
         for select_clause_element in segment.get_children("select_clause_element"):
             if expression := select_clause_element.get_child("expression"):
+                # scalar subquery used directly as (part of) a select item
+                for bracketed_segment in expression.get_children("bracketed"):
+                    if is_subquery(bracketed_segment):
+                        subquery.append(SubQueryTuple(bracketed_segment, None))
                 if case_expression := expression.get_child("case_expression"):
                     for when_clause in case_expression.get_children("when_clause"):
                         for bracketed_segment in list_expression_from_when_clause(
@@ -171,7 +175,7 @@ def list_subqueries(segment: BaseSegment) -> list[SubQueryTuple]:
                     extract_identifier(as_segment) if as_segment else None,
                 )
             ]
-    elif segment.type == "where_clause":
+    elif segment.type in ["where_clause", "having_clause"]:
         bracketeds = []
         if expression := segment.get_child("expression"):
             bracketeds = expression.get_children("bracketed")
